@@ -318,9 +318,15 @@ impl RefState {
                         continue;
                     }
                     let r = &rt.vals[j];
-                    for i in 0..k {
-                        v[i] += s * r.dir(d0 + i);
-                        m[i] += s.abs() * r.dirm(d0 + i);
+                    // the entries of this node's directions d0 .. d0 + k (the tangent is sparse and sorted)
+                    let from = r.d.partition_point(|e| (e.0 as usize) < d0);
+                    for e in &r.d[from..] {
+                        let i = e.0 as usize - d0;
+                        if i >= k {
+                            break;
+                        }
+                        v[i] += s * e.1;
+                        m[i] += s.abs() * e.2;
                     }
                 }
                 (v, m)
